@@ -217,16 +217,18 @@ def _rowcount_validated(f: FuncInfo, call: ast.Call) -> tp.Tuple[bool, str]:
     return False, f'unrecognised argument {txt}'
 
 
-def d_atomic(ctx: Ctx) -> None:
+def d_atomic(ctx: Ctx, only: tp.Optional[tp.Sequence[str]] = None) -> None:
     D1 = 'D1.lock-step'
     D2 = 'D2.validate-before-mutate'
     ctx.rule(D1, 'in every grow-only mutator the state components that must move together are all updated on every '
-             'path from the first mutation to a normal exit (counting loops over a positive count run at least once)', floor=10)
+             'path from the first mutation to a normal exit (counting loops over a positive count run at least once)', floor=10 if only is None else 5)
     ctx.rule(D2, 'after the first mutation of a grow-only mutator nothing can raise explicitly: no raise/assert statement, '
              'no per-item loop over a fallible mutator, and every fallible second mutation is pre-validated '
-             '(duplicate check before the first mutation, row count established for the block)', floor=14)
+             '(duplicate check before the first mutation, row count established for the block)', floor=14 if only is None else 6)
     prog = ctx.prog
     for qual, (receivers, comps, optional) in MUTATORS.items():
+        if only is not None and not qual.startswith(tuple(only)):
+            continue
         f = prog.func(qual)
         c = _Mut(f, receivers, tuple(comps) + tuple(optional))
         ex = flow.Engine(c).run(f.body, frozenset([frozenset()]))
@@ -299,6 +301,8 @@ def d_atomic(ctx: Ctx) -> None:
                 ctx.unk(D2, f, node, f'{how}: fallibility unknown', key=key2)
 
     for qual in LOOP_MUTATORS:
+        if only is not None and not qual.startswith(tuple(only)):
+            continue
         f = prog.func(qual)
         loops = [n for n in walk_local(f.node) if isinstance(n, (ast.For, ast.While))]
         found = False
